@@ -147,6 +147,14 @@ Theorem C12_reverse_mirror : forall cmds s e limit t resolved,
 Proof. exact rscan_correct. Qed.
 Print Assumptions C12_reverse_mirror.
 
+(* ---- ScanLock lists exactly the locks of the keys of [s,e) whose start ts is at most max, each with its full lock
+   record (primary, start ts, type, ttl, for-update ts are what the code reports; min_commit_ts is not reported) *)
+Theorem C12_scan_lock : forall cmds s e m k l,
+  (exists ls, snd (step (run cmds) (ScanLock s e m)) = RLocks ls /\
+              (In (k, l) ls <-> in_range s e k = true /\ lock_of (run cmds) k = Some l /\ l_start l <= m)).
+Proof. exact scan_lock_spec. Qed.
+Print Assumptions C12_scan_lock.
+
 (* ---- isolation level RC: Get / BatchGet / Scan / ReverseScan answer what the SI read answers on the store
    with every lock removed (any state) *)
 Theorem C12_rc_ignores_locks : forall st q,
